@@ -94,6 +94,10 @@ class C01(Check):
         ctx.coverage['datafile_cells_checked'] = len(req)
         ctx.notes.append('data files vs compiled tables: %d cells, %d differ' % (len(req), n_bad))
         if bad: rep['tie_broken'].append('data-file records and compiled table cells disagree: ' + '; '.join(bad[:4]))
+        # ---- the loader half as a MODEL WITH THEOREMS (lean-loader/: load_spec, names_match_macros, print11 …), tied to the real
+        #      loaders cell by cell; the Python oracle above stays as an independent second reading of the data files
+        from props import c01_loader
+        c01_loader.loader_tie(ctx, rep)
 
     def corr_lines(self, ctx):
         out = []
